@@ -74,6 +74,7 @@ let print_obs o =
   | OAFail (a, u, c) -> Printf.printf "EV AFAIL %d %d %d\n" (i a) (i u) (i c)
   | OThrow -> Printf.printf "THROW\n"
   | OThreads k -> Printf.printf "THREADS %d 1\n" (n k)
+  | OEByte (ok, b) -> Printf.printf "EBYTE %d %d\n" (if ok then 1 else 0) (int_of_z b)
   | OIter r -> Printf.printf "ITER %s\n" (zs r)
   | OCmp r -> Printf.printf "CMP %s\n" (String.concat " " (List.map (fun b -> if b then "1" else "0") r))
   | ONull (s, sz) -> Printf.printf "NULL %d %d\n" (n s) (i sz)
@@ -143,6 +144,7 @@ let parse_op params toks =
   | ("pagemode" | "protect" | "unprotect") :: _ -> OpNop
   | "constops" :: [s; t] -> OpConstOps (nat s, nat t)
   | "threads" :: [s; t; k] -> OpThreads (nat s, nat t, nat k)
+  | "ebyteprobe" :: [s; i] -> OpEByte (nat s, z i)
   | "cmpvec" :: [a; b] -> OpCmpVec (nat a, nat b)
   | "cmpref" :: [a; i; b; j] -> OpCmpRef (nat a, z i, nat b, z j)
   | "observe" :: [s] -> OpObserve (nat s)
